@@ -59,7 +59,8 @@ RULE = (
     "{compression_level default / None / 3 / 19 / 22} x routes {/echo,/gen/init,/gen/exchange,/health/init} x "
     "Content-Length {honest, absent, lying} x coding values {absent,'',identity,zstd,gzip,br,deflate,junk, case / SP-HTAB variants, and non-token values: "
     "lists of known+unknown codings, duplicates, empty items, ;q= parameters} x bodies {plain, every frame kind of C18 (honest), bombs, truncated / garbage / lying declared size / "
-    "bit-flipped / trailing bytes} with plaintext sizes in {0,1,c-1,c,c+1,2c,c+CHUNK,...}; distinct by the whole request; "
+    "bit-flipped / trailing bytes / series of 2..40 complete members or frames (each within the cap, together above it) / "
+    "frame + frame of another codec} with plaintext sizes in {0,1,c-1,c,c+1,2c,c+CHUNK,...}; distinct by the whole request; "
     "non-trivial when a cap is configured or a coding is named"
 )
 PARTIAL = [
@@ -278,6 +279,46 @@ def reference(codec: str, wire: bytes, cap: int | None) -> tuple[str, bytes, int
     return "incomplete", b"", declared, len(out)
 
 
+def gzip_all_members(wire: bytes, limit: int = 64 << 20) -> bytes | None:
+    """RFC 1952 reading of a body as a *series* of gzip members: their concatenated plaintext, or None if what follows the
+    first member is not a series of complete members."""
+    out, data, n = [], wire, 0
+    while data:
+        d = zlib.decompressobj(31)
+        try:
+            out.append(d.decompress(data) + d.flush())
+        except Exception:
+            return None
+        if not d.eof:
+            return None
+        n += len(out[-1])
+        if n > limit:
+            return None
+        data = d.unused_data
+    return b"".join(out)
+
+
+def zstd_all_frames(wire: bytes, limit: int = 64 << 20) -> bytes | None:
+    """A body read as a series of zstd frames (RFC 8878 §3.1: frames may be concatenated): the concatenated plaintext, or
+    None when what follows the first frame is not a series of complete frames."""
+    import zstandard
+
+    out, data, n = [], wire, 0
+    while data:
+        d = zstandard.ZstdDecompressor().decompressobj()
+        try:
+            out.append(d.decompress(data))
+        except Exception:
+            return None
+        if not d.eof:
+            return None
+        n += len(out[-1])
+        if n > limit:
+            return None
+        data = d.unused_data
+    return b"".join(out)
+
+
 def norm_token(ce: str | None) -> str:
     return (ce or "").strip(" \t").lower()
 
@@ -336,6 +377,7 @@ def check_request(ctx: Any, apps: Apps, case: dict[str, Any], oracle: bool = Tru
             ctx.fail(case, f"{pre}alloc-exceeds:{tok}", f"decoder handed over {decoded} bytes with cap {cap} (> cap + {chunk})")
         want: str
         want_rpc: bytes | None = None
+        alt_rpc: bytes | None = None
         also: tuple[int, ...] = ()
         detail = ""
         if cap is not None and len(wire) > cap:
@@ -361,13 +403,24 @@ def check_request(ctx: Any, apps: Apps, case: dict[str, Any], oracle: bool = Tru
                 else:
                     want, want_rpc, detail = "rpc", out, f"decoded+trailing:{tok}"
                     also = (400,)
+                    if True:
+                        # a series of members / frames may also be read as one stream (RFC 1952 §2.2, RFC 8878 §3.1) — but then
+                        # the cap is on the whole
+                        allm = gzip_all_members(wire) if tok == "gzip" else zstd_all_frames(wire)
+                        if allm is not None and allm != out:
+                            if cap is None or len(allm) <= cap:
+                                alt_rpc = allm
+                            else:
+                                also = (400, 413)
             else:
                 want, detail = "400", f"undecodable:{tok}:{verdict}"
                 if big:
                     also = (413,)
         if want == "rpc":
             if rpc is not None:
-                if rpc != want_rpc:
+                if cap is not None and tok not in ("", "identity") and len(rpc) > cap:
+                    ctx.fail(case, f"{pre}decoded-over-cap-reaches-rpc:{tok}", f"{len(rpc)} decoded bytes were handed to the RPC layer with max_request_bytes={cap}")
+                elif rpc != want_rpc and (alt_rpc is None or rpc != alt_rpc):
                     ctx.fail(case, f"{pre}wrong-bytes-to-rpc:{detail}", f"RPC layer received {len(rpc)} bytes that are not the client's {len(want_rpc or b'')}-byte plaintext")
             elif status not in also:
                 ctx.fail(case, f"{pre}{detail}-not-delivered:status-{status}", f"expected the body to reach the RPC layer ({detail}); got HTTP {status}")
@@ -491,7 +544,7 @@ def gen_case(rng: Any, caps: list[int | None]) -> dict[str, Any]:
         if r < 0.62:
             body = {"kind": "frame", "codec": codec, "fkind": fkind, "plain": pspec}
         else:
-            t = rng.choice(["truncate", "truncate", "garbage", "lying", "flip", "append"])
+            t = rng.choice(["truncate", "truncate", "garbage", "lying", "flip", "append", "members", "members", "append_frame"])
             if t == "lying":
                 codec, fkind = "zstd", rng.choice(["repo", "oneshot_checksum", "stream_writer_size"])
             c = cap if cap is not None else 1000
@@ -503,6 +556,14 @@ def gen_case(rng: Any, caps: list[int | None]) -> dict[str, Any]:
                 how = {"type": t, "declared": rng.choice([0, 1, max(0, n - 1), n + 1, c, c + 1, 2 * c + 7, 256, 70000, 10**6, 2**31])}
             elif t == "flip":
                 how = {"type": t, "pos": rng.randrange(0, 1 << 20), "bit": rng.randrange(8)}
+            elif t == "members":
+                # each member within the cap (mostly), the series above it
+                how = {"type": t, "count": rng.choice([2, 2, 3, 5, 10, 40])}
+                pspec = {"pattern": pat, "n": rng.choice([1, c // 2, c - 1, c, c // 3 + 1]), "seed": rng.randrange(4)}
+            elif t == "append_frame":
+                oc = rng.choice(["zstd", "gzip"])
+                how = {"type": t, "codec": oc, "fkind": rng.choice(c18.ZSTD_KINDS if oc == "zstd" else c18.GZIP_KINDS),
+                       "plain": {"pattern": rng.choice(["zeros", "text"]), "n": rng.choice([1, c, 2 * c + 1])}}
             else:
                 how = {"type": t, "hex": rng.choice(["00", "deadbeef", "1f8b0800", "28b52ffd"])}
             body = {"kind": "mangled", "codec": codec, "fkind": fkind, "plain": pspec, "mangle": how}
@@ -575,6 +636,18 @@ CORPUS: list[dict[str, Any]] = [
      "body": {"kind": "frame", "codec": "zstd", "fkind": "stream_wlog24", "plain": {"pattern": "text", "n": 300}}},
     {"cap": 300, "decode": "both", "path": "/echo", "cl": "honest", "ce": "zstd",
      "body": {"kind": "frame", "codec": "zstd", "fkind": "stream_ldm27", "plain": {"pattern": "text", "n": 300}}},
+    # a series of gzip members, each within the cap, together far above it: the cap is on the body, not per member
+    {"cap": 4096, "decode": "both", "path": "/echo", "cl": "honest", "ce": "gzip",
+     "body": {"kind": "mangled", "codec": "gzip", "fkind": "repo", "plain": {"pattern": "zeros", "n": 4000}, "mangle": {"type": "members", "count": 40}}},
+    {"cap": 70000, "decode": "both", "path": "/echo", "cl": "honest", "ce": "gzip",
+     "body": {"kind": "mangled", "codec": "gzip", "fkind": "gzipmod", "plain": {"pattern": "text", "n": 69000}, "mangle": {"type": "members", "count": 3}}},
+    {"cap": None, "decode": "both", "path": "/echo", "cl": "honest", "ce": "gzip",
+     "body": {"kind": "mangled", "codec": "gzip", "fkind": "repo", "plain": {"pattern": "text", "n": 300}, "mangle": {"type": "members", "count": 2}}},
+    {"cap": 4096, "decode": "both", "path": "/echo", "cl": "honest", "ce": "zstd",
+     "body": {"kind": "mangled", "codec": "zstd", "fkind": "streaming", "plain": {"pattern": "zeros", "n": 4000}, "mangle": {"type": "members", "count": 5}}},
+    {"cap": 4096, "decode": "both", "path": "/echo", "cl": "honest", "ce": "gzip",
+     "body": {"kind": "mangled", "codec": "gzip", "fkind": "repo", "plain": {"pattern": "text", "n": 300},
+              "mangle": {"type": "append_frame", "codec": "zstd", "fkind": "repo", "plain": {"pattern": "zeros", "n": 9000}}}},
     # requests without Content-Length (open finding)
     {"cap": 300, "decode": "both", "path": "/echo", "cl": "none", "ce": None, "body": {"kind": "plain", "plain": {"pattern": "zeros", "n": 5000}}},
     {"cap": 4096, "decode": "both", "path": "/echo", "cl": "none", "ce": None, "body": {"kind": "valid"}},
